@@ -9,6 +9,7 @@ import (
 	"fmt"
 	"os"
 	"path/filepath"
+	"runtime/debug"
 	"strings"
 	"sync"
 	"testing"
@@ -215,9 +216,20 @@ type world struct {
 	indexJumps     int   // resets that moved the append position into another index page
 	maxEver        int64 // highest sequence an earlier life of the log (before a reset) reached: index entries up to it may be stale
 	collectedIndex int64 // GC ran with the acknowledged position in this index page: lower index pages are gone
+	// GC with harness-owned points inside the page truncation (truncseam_test.go, gccrash_test.go)
+	truncOps int // such operations so far (budget per history)
 }
 
-func (w *world) logf(format string, args ...any) { w.ops = append(w.ops, fmt.Sprintf(format, args...)) }
+// traceOps (C05_TRACE=1): every history entry is also printed at once - the only way to see the
+// history of a case in which the code under test killed the process.
+var traceOps = os.Getenv("C05_TRACE") != ""
+
+func (w *world) logf(format string, args ...any) {
+	w.ops = append(w.ops, fmt.Sprintf(format, args...))
+	if traceOps {
+		fmt.Fprintln(os.Stderr, "TRACE", w.ops[len(w.ops)-1])
+	}
+}
 
 func (w *world) fatalf(format string, args ...any) {
 	w.t.Helper()
@@ -292,6 +304,9 @@ func scan(q queue.Queue, byID map[uint64]msg, assigned map[int64]uint64, pending
 }
 
 func (w *world) checkErr(where string) error {
+	if s := takeUnmappedHandOut(); s != "" {
+		return fmt.Errorf("%s: %s", where, s)
+	}
 	if err := scan(w.q, w.byID, w.assigned, &w.pending, where); err != nil {
 		return err
 	}
@@ -835,6 +850,8 @@ func newWorld(t *rapid.T, prefix string) (*world, func()) {
 	w := &world{t: t, dir: filepath.Join(dir, "q"), byID: map[uint64]msg{}, assigned: map[int64]uint64{}, classes: map[string]int{}, lastSize: -1,
 		heldEvents: map[string]bool{}, pageOf: map[int64]int64{}, maxEver: -1}
 	installSeams(w)
+	takeUnmappedHandOut()
+	debug.SetPanicOnFault(true) // truncseam_test.go: an access to an unmapped page fails the case instead of killing the process
 	return w, func() {
 		uninstallSeams()
 		bigBusy = false
@@ -894,6 +911,8 @@ func runHistory(t *rapid.T, thorough bool) {
 		"resetDuringPut":           func(t *rapid.T) { w.t = t; w.opResetDuringPut() },
 		"resetDuringPut2":          func(t *rapid.T) { w.t = t; w.opResetDuringPut() },
 		"resetBackAcrossIndexPage": func(t *rapid.T) { w.t = t; w.opResetBackAcrossIndexPage() },
+		"gcInsideTruncation":       func(t *rapid.T) { w.t = t; w.opGCInsideTruncation() },
+		"gcCrash":                  func(t *rapid.T) { w.t = t; w.opGCCrash(thorough) },
 		"":                         func(t *rapid.T) { w.t = t; w.check("after step") },
 	})
 	w.t = t
@@ -903,7 +922,8 @@ func runHistory(t *rapid.T, thorough bool) {
 	w.opPut()
 	w.check("after final append")
 	nt := w.nt > 0 || (w.classes["overlapping-put"] > 0 && w.classes["reopen"] > 1) || w.classes["gc-interleaved-with-appends"] > 0 ||
-		w.classes["fault-put-failed"] > 0 || w.heldNonTrivial() || w.classes["reset-during-append"] > 0
+		w.classes["fault-put-failed"] > 0 || w.heldNonTrivial() || w.classes["reset-during-append"] > 0 ||
+		w.classes["trunc-actor-appended-or-reset"] > 0 || w.classes["gc-img-with-removed-page-files"] > 0
 	for c, n := range w.classes {
 		ev.Class("TestQueueHistory", c, n)
 	}
